@@ -205,13 +205,25 @@ func runC01(c *Ctx) {
 	if gb := p.Func("private/bufpkg/bufimage", "getBuildResult"); gb != nil {
 		info := gb.Info()
 		n, okAll := 0, true
-		ast.Inspect(gb.Decl.Body, func(x ast.Node) bool {
+		// every conversion of a compiler error in the package (getBuildResult or a helper it was split into)
+		var bodies []ast.Node
+		for _, fr := range p.FuncsOf(p.Pkg("private/bufpkg/bufimage")) {
+			if fr.Decl.Body != nil {
+				bodies = append(bodies, fr.Decl.Body)
+			}
+		}
+		inspectAll := func(f func(ast.Node) bool) {
+			for _, b := range bodies {
+				ast.Inspect(b, f)
+			}
+		}
+		inspectAll(func(x ast.Node) bool {
 			call, ok := x.(*ast.CallExpr)
 			if !ok {
 				return true
 			}
 			fn := Callee(info, call)
-			if fn == nil || !strings.HasPrefix(fn.Name(), "FileAnnotation") || !strings.HasSuffix(fn.Pkg().Path(), "bufprotocompile") {
+			if fn == nil || fn.Pkg() == nil || !strings.HasPrefix(fn.Name(), "FileAnnotation") || !strings.HasSuffix(fn.Pkg().Path(), "bufprotocompile") {
 				return true
 			}
 			n++
@@ -231,7 +243,7 @@ func runC01(c *Ctx) {
 		c.Ob("DIAG-PATH", "getBuildResult/external-path-resolver", gb.Decl.Pos(), okAll && n >= 2, true, "%d compiler-error conversions, each with WithExternalPathResolver(parserAccessorHandler.ExternalPath): %v", n, okAll)
 		// failed results carry a non-nil error
 		okNil := true
-		ast.Inspect(gb.Decl.Body, func(x ast.Node) bool {
+		inspectAll(func(x ast.Node) bool {
 			call, ok := x.(*ast.CallExpr)
 			if !ok {
 				return true
